@@ -8,7 +8,7 @@ from .c03 import parse_def
 PROP = "C15"
 MODULE = "PLS.Props.C15"
 THEOREMS = ["PLS.C15_ascii_prefix_cols", "PLS.C15_non_ascii_cols_differ", "PLS.C15_definition_target",
-            "PLS.C15_implementation_target", "PLS.C15_symbol_selection", "PLS.C15_selection_outside_range_exists",
+            "PLS.C15_implementation_target", "PLS.C15_symbol_selection", "PLS.C15_selection_outside_range_before",
             "PLS.C15_param_range_wellformed", "PLS.C15_string_usage_span"]
 RULE = ("generated programs (proggen: tabs, CRLF, non-ASCII identifiers and text before tokens, six string-literal "
         "forms, multi-line and annotated signatures, positional-only / keyword-only parameters): (A) every recorded "
